@@ -834,6 +834,36 @@ func (c *FnCtx) bitop(env *Env, op token.Token, l, r Val, resT types.Type, n ast
 			}
 		}
 	}
+	// one operand a single literal bit 2^k (flag words): exact in integer arithmetic, with
+	// bit k of x read as (x div 2^k) mod 2 (floor division: also the two's-complement bit of a
+	// negative x)
+	singleBit := func(t string) (string, bool) {
+		if k, ok := parseIntLit(t); ok && k.Sign() > 0 && k.BitLen() <= 64 {
+			if new(big.Int).And(k, new(big.Int).Sub(k, big.NewInt(1))).Sign() == 0 {
+				return k.String(), true
+			}
+		}
+		return "", false
+	}
+	xT, pT, okBit := "", "", false
+	if p, ok := singleBit(r.T); ok {
+		xT, pT, okBit = l.T, p, true
+	} else if p, ok := singleBit(l.T); ok && op != token.AND_NOT {
+		xT, pT, okBit = r.T, p, true
+	}
+	if okBit {
+		has := eq(app("mod", app("div", xT, pT), "2"), "1")
+		switch op {
+		case token.AND:
+			return Val{T: ite(has, pT, "0"), Typ: resT}
+		case token.OR:
+			return Val{T: ite(has, xT, app("+", xT, pT)), Typ: resT}
+		case token.AND_NOT:
+			return Val{T: ite(has, app("-", xT, pT), xT), Typ: resT}
+		case token.XOR:
+			return Val{T: ite(has, app("-", xT, pT), app("+", xT, pT)), Typ: resT}
+		}
+	}
 	fn := map[token.Token]string{token.AND: "bitand", token.OR: "bitor", token.XOR: "bitxor", token.AND_NOT: "bitandnot"}[op]
 	bits, signed, _ := intInfo(c.subst(resT))
 	name := fmt.Sprintf("%s_%d_%v", fn, bits, signed)
